@@ -587,12 +587,23 @@ class GibbsEngine(EngineBase):
     def run(self, case, ctx):
         sim = core.SimRandom(ctx)
         sim.install()
+        # seam for SciPy's hidden Fortran generator (randomised spectral-norm estimate behind the automatic FISTA step
+        # size): every estimate starts from the generator's default state, so it is a function of its operator alone
+        import scipy.linalg.interpolative as sli
+        import cuqi.experimental.mcmc._rto as rto_mod
+        real_est = rto_mod.estimate_spectral_norm
+
+        def est(*a, **k):
+            sli.seed("default")
+            return real_est(*a, **k)
+        rto_mod.estimate_spectral_norm = est
         try:
             if case["scenario"]["iface"] == "hybrid":
                 HybridRun(ctx, case).run()
             else:
                 LegacyRun(ctx, case).run()
         finally:
+            rto_mod.estimate_spectral_norm = real_est
             sim.uninstall()
 
     def shrink(self, case):
